@@ -89,3 +89,12 @@ func init() {
 		Trusted: []string{"T1 go toolchain, solvers", "T2 govc", "reflect.Value.Call applies its receiver once and may panic", "T5 log.Panic* panic"},
 	})
 }
+
+func init() {
+	register(&PropDef{
+		ID: "C02", Patterns: []string{"./interp"}, Specs: []string{"ops", "opsbv"},
+		Covered: []string{"operand extractors of value.go", "operator generators of op.go: every run-time closure against the Go-spec value per kind"},
+		Uncov:   []string{"which generator cfg.go selects and into which slot (A1, A2)", "float32 double rounding (T7)"},
+		Trusted: []string{"T1 go toolchain, solvers", "T2 govc", "T3 reflect.Value model (Set* truncate to kind, Int/Uint read the content, Convert is Go conversion)", "A1 typing precondition", "A2 genValue/genValueOutput denote operand/destination", "T7 float32 double rounding"},
+	})
+}
